@@ -9,7 +9,7 @@
    save_type_is_fresh        the entry left by save_type / copy_skel is the one a run into an empty directory leaves,
                              whatever was there before
    save_type_tail_len_refuted   with the length-only tail a stale file survives
-   link_skel_retains / write_inplace_follows_link   the two documented / recorded dependences on the old entry *)
+   link_skel_retains             the one documented dependence on the old entry (write_inplace: none since the repair) *)
 From Coq Require Import List Bool Arith Lia NArith.
 From A1 Require Import Fix.IdenticalFiles.
 Import ListNotations.
@@ -171,23 +171,17 @@ Proof. intros old path H. destruct old; [contradiction| |]; reflexivity. Qed.
 Theorem link_skel_fresh : forall path, link_skel A (Absent A) path = fresh_link A path.
 Proof. reflexivity. Qed.
 
-Theorem write_inplace_regular_is_fresh : forall old new, (forall t, old <> Link A t) ->
-  write_inplace A old new = (Reg A new, None).
-Proof. intros old new H. destruct old as [| |t]; try reflexivity. exfalso. apply (H t). reflexivity. Qed.
-
-Theorem write_inplace_follows_link : forall t new, write_inplace A (Link A t) new = (Link A t, Some new).
+Theorem write_inplace_is_fresh : forall old new, write_inplace A old new = (Reg A new, None).
 Proof. reflexivity. Qed.
 
 (* ---- a whole run -------------------------------------------------------------------------------------------------- *)
 
-Lemma apply_op_at : forall d p w, nolink A d [(p, w)] ->
-  apply_op A eqb B d (p, w) p = Reg A (content_of A w).
+Lemma apply_op_at : forall d p w, apply_op A eqb B d (p, w) p = Reg A (content_of A w).
 Proof.
-  intros d p w H. destruct w as [n|n|n]; simpl; unfold upd; rewrite Nat.eqb_refl.
+  intros d p w. destruct w as [n|n|n]; simpl; unfold upd; rewrite Nat.eqb_refl.
   - apply save_type_is_fresh.
   - apply copy_skel_is_fresh.
-  - rewrite write_inplace_regular_is_fresh; [reflexivity|].
-    intros t. apply (H p n t). left. reflexivity.
+  - reflexivity.
 Qed.
 
 Lemma apply_op_other : forall d p w q, q <> p -> apply_op A eqb B d (p, w) q = d q.
@@ -195,32 +189,20 @@ Proof.
   intros d p w q H. apply Nat.eqb_neq in H. destruct w; simpl; unfold upd; rewrite H; reflexivity.
 Qed.
 
-Lemma nolink_head : forall d x outs, nolink A d (x :: outs) -> nolink A d [x].
-Proof. intros d x outs H p n t [E|[]]. apply (H p n t). left. exact E. Qed.
-
-Lemma nolink_step : forall d p w outs, nolink A d ((p, w) :: outs) -> nolink A (apply_op A eqb B d (p, w)) outs.
-Proof.
-  intros d p w outs H q n t Hin. destruct (Nat.eq_dec q p) as [E|E].
-  - subst q. rewrite apply_op_at; [discriminate|]. apply (nolink_head d (p, w) outs H).
-  - rewrite apply_op_other by exact E. apply (H q n t). right. exact Hin.
-Qed.
-
 Lemma run_dir_cons : forall d x outs, run_dir A eqb B d (x :: outs) = run_dir A eqb B (apply_op A eqb B d x) outs.
 Proof. reflexivity. Qed.
 
 (* two directories that agree on a set of paths agree, after the same run, on that set and on every path written *)
 Lemma run_dir_agree : forall outs d1 d2 (S : nat -> Prop),
-  nolink A d1 outs -> nolink A d2 outs -> (forall q, S q -> d1 q = d2 q) ->
+  (forall q, S q -> d1 q = d2 q) ->
   forall q, S q \/ In q (map fst outs) -> run_dir A eqb B d1 outs q = run_dir A eqb B d2 outs q.
 Proof.
-  induction outs as [|[p w] outs IH]; intros d1 d2 S H1 H2 HS q Hq.
+  induction outs as [|[p w] outs IH]; intros d1 d2 S HS q Hq.
   - simpl in *. destruct Hq as [Hq|[]]. apply HS. exact Hq.
   - rewrite !run_dir_cons.
     apply (IH _ _ (fun r => S r \/ r = p)).
-    + apply nolink_step. exact H1.
-    + apply nolink_step. exact H2.
     + intros r Hr. destruct (Nat.eq_dec r p) as [E|E].
-      * subst r. rewrite !apply_op_at; [reflexivity | apply (nolink_head d2 _ outs H2) | apply (nolink_head d1 _ outs H1)].
+      * subst r. rewrite !apply_op_at. reflexivity.
       * rewrite !apply_op_other by exact E. apply HS. destruct Hr as [Hr|Hr]; [exact Hr | contradiction].
     + simpl in Hq. destruct Hq as [Hq|[Hq|Hq]].
       * left. left. exact Hq.
@@ -228,13 +210,12 @@ Proof.
       * right. exact Hq.
 Qed.
 
-(* every file the run writes is what a run into an empty directory leaves there, whatever the directory held ... *)
-Theorem run_dir_is_fresh : forall outs d, nolink A d outs ->
+(* every file the run writes is what a run into an empty directory leaves there, whatever the directory held
+   (symbolic links included: the files rewritten in place replace a link, as the per-type files and skeleton copies do) ... *)
+Theorem run_dir_is_fresh : forall outs d,
   forall q, In q (map fst outs) -> run_dir A eqb B d outs q = run_dir A eqb B (empty_dir A) outs q.
 Proof.
-  intros outs d H q Hq. apply (run_dir_agree outs d (empty_dir A) (fun _ => False)).
-  - exact H.
-  - intros p n t _. unfold empty_dir. discriminate.
+  intros outs d q Hq. apply (run_dir_agree outs d (empty_dir A) (fun _ => False)).
   - intros r [].
   - right. exact Hq.
 Qed.
@@ -294,13 +275,12 @@ Example identical_examples :
   identical_N 4 []%N []%N = true /\ identical_N 4 []%N [1]%N = false /\ identical_N 4 [1]%N []%N = false.
 Proof. vm_compute. repeat split; reflexivity. Qed.
 
-(* a link where a file is rewritten in place: the run does not leave what a fresh run leaves (finding C12-inplace-file-through-symlink) *)
-Theorem run_dir_link_refuted : exists (d : dir N) (outs : list (nat * wop N)) (q : nat),
-  In q (map fst outs) /\ run_dir N N.eqb 4096 d outs q <> run_dir N N.eqb 4096 (empty_dir N) outs q.
-Proof.
-  exists (fun _ => Link N 7), [(0, WType N [1]%N); (1, WInplace N [2]%N)], 1.
-  split; [right; left; reflexivity|]. vm_compute. discriminate.
-Qed.
+(* the former witness of C12-inplace-file-through-symlink (a directory of links), on the repaired model *)
+Example run_dir_link_replaced :
+  let d : dir N := fun _ => Link N 7 in
+  let outs := [(0, WType N [1]%N); (1, WInplace N [2]%N)]%nat in
+  run_dir N N.eqb 4096 d outs 1%nat = Reg N [2]%N /\ snd (write_inplace N (d 1%nat) [2]%N) = None.
+Proof. vm_compute. split; reflexivity. Qed.
 
 (* with the length-only tail a whole run keeps a stale per-type file *)
 Theorem run_dir_tail_len_refuted : exists (d : dir N) (new : list N),
